@@ -305,7 +305,7 @@ def c_lexer_peek(lx: Obj("Lexer"), src: Str, pos: IntRange(0, 2 ** 31), off: Int
 @recursive
 def spec_eol(s, i) -> "int":
     """first index >= i holding a line feed; len(s) if there is none (measure: len(s) - i)"""
-    if i >= len(s):
+    if i < 0 or i >= len(s):
         return len(s)
     if s[i] == "\n":
         return i
@@ -313,13 +313,13 @@ def spec_eol(s, i) -> "int":
 
 
 def spec_eol__ensures(s, i, result):
-    return i > len(s) or (i <= result and result <= len(s))
+    return i < 0 or i > len(s) or (i <= result and result <= len(s))
 
 
 @recursive
 def spec_close(s, i) -> "int":
     """first index >= i where "*/" starts; -1 if there is none (measure: len(s) - i)"""
-    if i >= len(s):
+    if i < 0 or i >= len(s):
         return -1
     if s[i] == "*" and i + 1 < len(s) and s[i + 1] == "/":
         return i
@@ -334,7 +334,7 @@ def spec_close__ensures(s, i, result):
 def spec_trivia_end(s, i) -> "int":
     """where skipping white space and comments from i stops (ECMA-262 12.2-12.4: WhiteSpace, LineTerminator,
     SingleLineComment, MultiLineComment); -1 when a block comment is not closed (measure: len(s) - i)"""
-    if i >= len(s):
+    if i < 0 or i >= len(s):
         return i
     if s[i] == " " or s[i] == "\t" or s[i] == "\r" or s[i] == "\n":
         return spec_trivia_end(s, i + 1)
@@ -348,29 +348,36 @@ def spec_trivia_end(s, i) -> "int":
     return i
 
 
+def _cursor_ok(self, src, pos0):
+    return self.source == src and self.length == len(src) and pos0 <= self.pos and self.pos <= self.length
+
+
 @writes("pos", "line", "column")
 def inv_skip_outer(self):
     pos0 = ghost_get("pos0", None)
     src = ghost_get("src", None)
-    return (self.source == src and self.length == len(src) and pos0 <= self.pos and self.pos <= self.length
-            and spec_trivia_end(src, self.pos) == spec_trivia_end(src, pos0))
+    if not _cursor_ok(self, src, pos0):
+        return False
+    return spec_trivia_end(src, self.pos) == spec_trivia_end(src, pos0)
 
 
 @writes("pos", "line", "column")
 def inv_skip_line_comment(self):
     pos0 = ghost_get("pos0", None)
     src = ghost_get("src", None)
-    return (self.source == src and self.length == len(src) and pos0 <= self.pos and self.pos <= self.length
-            and spec_trivia_end(src, spec_eol(src, self.pos)) == spec_trivia_end(src, pos0))
+    if not _cursor_ok(self, src, pos0):
+        return False
+    return spec_trivia_end(src, spec_eol(src, self.pos)) == spec_trivia_end(src, pos0)
 
 
 @writes("pos", "line", "column")
 def inv_skip_block_comment(self):
     pos0 = ghost_get("pos0", None)
     src = ghost_get("src", None)
+    if not _cursor_ok(self, src, pos0):
+        return False
     j = spec_close(src, self.pos)
-    return (self.source == src and self.length == len(src) and pos0 <= self.pos and self.pos <= self.length
-            and ((j == -1 and spec_trivia_end(src, pos0) == -1) or (j >= 0 and spec_trivia_end(src, j + 2) == spec_trivia_end(src, pos0))))
+    return (j == -1 and spec_trivia_end(src, pos0) == -1) or (j >= 0 and spec_trivia_end(src, j + 2) == spec_trivia_end(src, pos0))
 
 
 def c_lexer_skip(lx: Obj("Lexer"), src: Str, pos: IntRange(0, 2 ** 31), line: IntRange(1, 2 ** 31), col: IntRange(1, 2 ** 31)):
